@@ -75,7 +75,42 @@ func genHistory(rng *rand.Rand, n int) []drv.Req {
 	return h
 }
 
+// expiredCounted: facts written with a short ttl at a location that is exactly full, then left
+// alone until they have expired.  Size and capacity answers must not depend on the cache TTL
+// (a reloaded location has purged them, a cached one still counts them: listed finding).
+func expiredCounted(r *rep.Report) {
+	for _, linear := range []bool{false, true} {
+		got := map[string]string{}
+		for ttlName, ttl := range ttls {
+			s, err := drv.NewSys(drv.SysOpts{Linear: linear, TTL: ttl, MaxFacts: 3}, cronner.New(true))
+			if err != nil {
+				continue
+			}
+			for i := 0; i < 3; i++ {
+				drv.SysDo(s, drv.Req{Op: "addFact", Loc: "X", Id: fmt.Sprintf("e%d", i), Doc: `{"k":"short","ttl":1}`})
+			}
+			time.Sleep(2100 * time.Millisecond)
+			n, serr := s.GetSize(drv.Ctx(), "X")
+			add := drv.SysDo(s, drv.Req{Op: "addFact", Loc: "X", Id: "late", Doc: `{"k":"late"}`})
+			if strings.HasPrefix(add, "ERR:") {
+				add = "refused"
+			}
+			got[ttlName] = fmt.Sprintf("size=%d (%v), add at capacity: %s", n, serr, add)
+		}
+		r.Case(true, fmt.Sprint("expired-counted", linear))
+		r.Count("expired_counted_cases", 1)
+		// building a System sets the process-wide default location control: put the harness default back
+		drv.NewSys(drv.SysOpts{TTL: sys.Forever}, cronner.New(true))
+		if got["forever"] != got["never"] || got["forever"] != got["1ms"] {
+			r.Violate("c17.expired-counted", "size and capacity answers about a location whose facts have all expired depend on the cache TTL", rep.J{"linear": linear, "max_facts": 3, "answers_by_ttl": got})
+		}
+	}
+}
+
 func twin(r *rep.Report, e rep.Env) {
+	if e.Batch == 0 {
+		expiredCounted(r)
+	}
 	nHist := e.Pick(10, 80)
 	for hi := 0; hi < nHist; hi++ {
 		rng := rand.New(rand.NewSource(e.BatchSeed()*817504243 + int64(hi)))
